@@ -82,7 +82,7 @@ def r1_transfer_loops(repo=None):
         q = name
         srcvar = inner.target.id if isinstance(inner.target, ast.Name) else None
         tcalls = [c for c in ast.walk(inner) if isinstance(c, ast.Call) and c.args and isinstance(c.args[0], ast.Name)
-                  and c.args[0].id == srcvar and len(c.args) == 2 and pyfront.call_name(c) not in ("os.path.relpath", "os.path.join")]
+                  and getattr(pyutil.dealias(c.args[0], env), "id", None) == srcvar and len(c.args) == 2 and pyfront.call_name(c) not in ("os.path.relpath", "os.path.join")]
         if len(tcalls) != 1:
             r.violation(m.rel, q, "%d transfer calls per listed path" % len(tcalls), "each listed file must be transferred exactly once",
                         line=inner.lineno)
@@ -109,11 +109,17 @@ def r1_transfer_loops(repo=None):
                         "(src, dest) pair exactly once (filter, early exit or conditional transfer)", line=what.lineno)
             continue
         destname = outer.target.elts[1].id if isinstance(outer.target.elts[1], ast.Name) else None
-        dvar = norm(ast.unparse(tc.args[1]))
+        dvar = norm(ast.unparse(pyutil.dealias(tc.args[1], env)))
+        stale = _stale_memo(f, outer, inner, tc)
+        if stale is not None:
+            node, why = stale
+            r.violation(m.rel, q, norm(ast.unparse(node))[:90], why, line=node.lineno)
+            continue
         dp = [n for n in ast.walk(inner) if isinstance(n, ast.Assign) and norm(ast.unparse(n.targets[0])) == dvar]
-        rel_ok = len(dp) == 1 and isinstance(dp[0].value, ast.Call) and pyfront.call_name(dp[0].value) == "os.path.join" \
-            and len(dp[0].value.args) == 2 and norm(ast.unparse(dp[0].value.args[0])) == destname \
-            and norm(ast.unparse(dp[0].value.args[1])) == "os.path.relpath(%s, %s)" % (srcvar, srcname)
+        dval = pyutil.dealias(dp[0].value, env) if dp else None
+        rel_ok = len(dp) == 1 and isinstance(dval, ast.Call) and pyfront.call_name(dval) == "os.path.join" \
+            and len(dval.args) == 2 and norm(ast.unparse(dval.args[0])) == destname \
+            and norm(ast.unparse(dval.args[1])) == "os.path.relpath(%s, %s)" % (srcvar, srcname)
         if not dp:
             raise AnalysisError("%s: definition of the destination path `%s` not found" % (q, dvar))
         if rel_ok:
@@ -123,13 +129,7 @@ def r1_transfer_loops(repo=None):
             r.violation(m.rel, q, norm(ast.unparse(dp[0]))[:100], "the destination path is not dest joined with "
                         "os.path.relpath(srcpath, src): files can land at a different relative path (e.g. string slicing is wrong "
                         "when src is not normalised)", line=dp[0].lineno)
-        import copy
-        t = copy.deepcopy(outer)
-        for c in ast.walk(t):
-            if isinstance(c, ast.Call) and pyfront.call_name(c) == callee:
-                c.func = ast.Name(id="TRANSFER", ctx=ast.Load())
-        t.iter = pyutil.dealias(t.iter, env)
-        shapes[name] = pyutil.alpha(t)
+        shapes[name] = _loop_shape(outer, env, callee)
     if len(shapes) == 3:
         if len(set(shapes.values())) == 1:
             r.ok("%s _run_cp/_run_ln/_run_mv" % m.rel, "loops are identical after abstracting the transfer primitive and local names")
@@ -139,6 +139,153 @@ def r1_transfer_loops(repo=None):
                         "files identically", line=m.fn(odd[0] if odd else "_run_cp").lineno)
     r.guard(4)
     return r
+
+
+def _loop_shape(outer, env, callee):
+    """the (src, dest) loop as text, with the transfer primitive abstracted, plain copies of names (left behind by inlining)
+    substituted and dropped, and the names it binds renamed in order of appearance"""
+    import copy
+    from .. import pysym
+    t = copy.deepcopy(outer)
+    for c in ast.walk(t):
+        if isinstance(c, ast.Call) and pyfront.call_name(c) == callee:
+            c.func = ast.Name(id="TRANSFER", ctx=ast.Load())
+    t = pysym.subst(t, env)
+
+    class Drop(ast.NodeTransformer):
+        def visit_Assign(self, node):
+            if len(node.targets) == 1 and isinstance(node.targets[0], ast.Name) and node.targets[0].id in env:
+                return None
+            return node
+    t = Drop().visit(t)
+    order = []
+
+    class Bound(ast.NodeVisitor):
+        def visit_Name(self, node):
+            if isinstance(node.ctx, ast.Store) and node.id not in order:
+                order.append(node.id)
+    Bound().visit(t)
+    ren = {n: "v%d" % i for i, n in enumerate(order)}
+    for n in ast.walk(t):
+        if isinstance(n, ast.Name) and n.id in ren:
+            n.id = ren[n.id]
+    ast.fix_missing_locations(t)
+    return norm(ast.unparse(t))
+
+
+def _stale_memo(f, outer, inner, tc):
+    """Loop-carried state in the destination of the transfer.  A name feeding the destination that is not assigned on every
+    iteration before the transfer holds a value of an earlier file.  Recognised: the memo idiom `if A != K: K = A; X = g(...)`.
+    The memo is sound only if g's inputs are part of the key A or do not change while the memo lives; g reading a variable of
+    the (src, dest) loop while K survives from one pair to the next is positive evidence of a stale destination (violation).
+    Any other carried state is not decided (AnalysisError).  Returns (node, message) or None when nothing is carried."""
+    def names(e):
+        return {x.id for x in ast.walk(e) if isinstance(x, ast.Name)}
+    params = {a.arg for a in f.args.args}
+    assigned_in_outer = set()
+    for n in ast.walk(outer):
+        if isinstance(n, ast.Assign):
+            for t in n.targets:
+                assigned_in_outer |= {x.id for x in ast.walk(t) if isinstance(x, ast.Name)}
+        elif isinstance(n, (ast.For, ast.comprehension)):
+            assigned_in_outer |= names(n.target)
+        elif isinstance(n, (ast.AugAssign, ast.AnnAssign)):
+            assigned_in_outer |= names(n.target)
+    loop_vars = names(outer.target) | names(inner.target)
+    # unconditional definitions of this iteration, in order, up to the statement holding the transfer
+    top = {}
+    tstmt = None
+    for st in inner.body:
+        if any(x is tc for x in ast.walk(st)):
+            tstmt = st
+            break
+        if isinstance(st, ast.Assign):
+            for t in st.targets:
+                for x in ast.walk(t):
+                    if isinstance(x, ast.Name):
+                        top[x.id] = st.value
+    if tstmt is None:
+        return None
+    carried, seen, work = [], set(), sorted(names(tc.args[1]))
+    while work:
+        nm = work.pop()
+        if nm in seen:
+            continue
+        seen.add(nm)
+        if nm in loop_vars or nm not in assigned_in_outer:
+            continue
+        if nm in top:
+            work += sorted(names(top[nm]))
+            continue
+        carried.append(nm)
+    if not carried:
+        return None
+    for x in sorted(carried):
+        blocks = [st for st in inner.body if isinstance(st, ast.If) and any(
+            isinstance(a, ast.Assign) and any(isinstance(t, ast.Name) and t.id == x for t in a.targets) for a in ast.walk(st))]
+        others = [a for a in ast.walk(outer) if isinstance(a, ast.Assign) and any(isinstance(t, ast.Name) and t.id == x for t in a.targets)
+                  and not any(a is y for b in blocks for y in ast.walk(b))]
+        if len(blocks) != 1 or others or blocks[0].orelse:
+            raise AnalysisError("%s: the destination depends on `%s`, which is carried from one listed file to the next in a form that "
+                                "is not the memo idiom `if key != last: last = key; value = ...`" % (f.name, x))
+        b = blocks[0]
+        t = b.test
+        if not (isinstance(t, ast.Compare) and len(t.ops) == 1 and isinstance(t.ops[0], ast.NotEq)):
+            raise AnalysisError("%s: guard of the memo for `%s` is not `key != last`: `%s`" % (f.name, x, norm(ast.unparse(t))[:60]))
+        sides = [t.left, t.comparators[0]]
+        last = [s_ for s_ in sides if isinstance(s_, ast.Name) and s_.id not in top and s_.id not in loop_vars]
+        if len(last) != 1:
+            raise AnalysisError("%s: the remembered key of the memo for `%s` could not be told from the current key" % (f.name, x))
+        last = last[0]
+        key = sides[1] if sides[0] is last else sides[0]
+        upd = [a for a in b.body if isinstance(a, ast.Assign) and any(isinstance(t_, ast.Name) and t_.id == last.id for t_ in a.targets)]
+        if len(upd) != 1 or norm(ast.unparse(upd[0].value)) != norm(ast.unparse(key)):
+            raise AnalysisError("%s: the memo for `%s` does not remember its key (`%s = %s` expected in the guarded block)" % (
+                f.name, x, last.id, norm(ast.unparse(key))))
+        # where does the remembered key start its life?  inside the (src, dest) loop body: one memo per pair
+        reset_per_pair = any(isinstance(a, ast.Assign) and any(isinstance(t_, ast.Name) and t_.id == last.id for t_ in a.targets)
+                             for st in outer.body if st is not inner and not any(y is inner for y in ast.walk(st)) for a in ast.walk(st))
+        key_names = set()
+        work2, seen2 = sorted(names(key)), set()
+        while work2:
+            nm = work2.pop()
+            if nm in seen2:
+                continue
+            seen2.add(nm)
+            key_names.add(nm)
+            if nm in top:
+                work2 += sorted(names(top[nm]))
+        blocal = {}
+        for a in b.body:
+            if isinstance(a, ast.Assign):
+                for t_ in a.targets:
+                    if isinstance(t_, ast.Name):
+                        blocal[t_.id] = a.value
+        vx = [a for a in b.body if isinstance(a, ast.Assign) and any(isinstance(t_, ast.Name) and t_.id == x for t_ in a.targets)]
+        if len(vx) != 1:
+            raise AnalysisError("%s: `%s` is not assigned exactly once at the top of the memo block" % (f.name, x))
+        inputs, work3, seen3 = set(), sorted(names(vx[0].value)), set()
+        while work3:
+            nm = work3.pop()
+            if nm in seen3:
+                continue
+            seen3.add(nm)
+            if nm == last.id:
+                continue
+            if nm in blocal and nm != x:
+                work3 += sorted(names(blocal[nm]))
+                continue
+            inputs.add(nm)
+        varying = {nm for nm in inputs if nm in names(outer.target) and nm not in key_names}
+        if varying and not reset_per_pair:
+            return vx[0], ("the destination directory is remembered from one listed file to the next and renewed only when `%s` "
+                           "changes, but it is computed from `%s` of the (src, dest) pair, which is not part of that key, and the "
+                           "remembered key survives from one pair to the next: the first files of the next pair whose relative "
+                           "directory equals the last one of the previous pair are transferred into the previous pair's "
+                           "destination" % (norm(ast.unparse(key)), ", ".join(sorted(varying))))
+        raise AnalysisError("%s: the destination is built from the memo `%s` keyed by `%s`; whether it equals "
+                            "join(dest, relpath(path, src)) is not decided" % (f.name, x, norm(ast.unparse(key))))
+    return None
 
 
 def _anc(m, n):
@@ -284,7 +431,7 @@ def r2_option_table(repo=None):
     params = [a.arg for a in il.args.args][1:]
     for cmd, builder, runner in (("cp", "_build_cp_parser", "_run_cp"), ("mv", "_build_mv_parser", "_run_mv"), ("ln", "_build_ln_parser", "_run_ln")):
         dests = set(_dests(m, builder)) | {"func"}
-        ps = m.flat(prepare_fn(m)).fn()
+        ps = m.flat(runner, depth=4).fn()        # the run function with its private helpers inlined: parsing, pairs, kwargs
         added = {t.attr for n in ast.walk(ps) if isinstance(n, ast.Assign) for t in n.targets if isinstance(t, ast.Attribute)
                  and isinstance(t.value, ast.Name) and t.value.id == "args"}
         deleted = _deleted_keys(m, ps)
@@ -363,9 +510,12 @@ def r3_wiring(repo=None):
         else:
             r.violation(m.rel, b, "set_defaults(func=%s)" % got, "`drf %s` runs %s instead of %s" % (cmd, got, run), line=bf.lineno)
     f = m.fn("_run_ln")
+    # the local that holds the link primitive: any local assigned os.link / os.symlink
+    link_vars = {n.targets[0].id for n in ast.walk(f) if isinstance(n, ast.Assign) and isinstance(n.targets[0], ast.Name)
+                 and any(pyfront.dotted(x) in ("os.link", "os.symlink") for x in ast.walk(n.value))}
     vals = {}
     for n in ast.walk(f):
-        if isinstance(n, ast.Assign) and isinstance(n.targets[0], ast.Name) and n.targets[0].id == "link_fun":
+        if isinstance(n, ast.Assign) and isinstance(n.targets[0], ast.Name) and n.targets[0].id in link_vars:
             v = n.value
             if isinstance(v, ast.IfExp):
                 vals[norm(ast.unparse(v.test))] = (norm(ast.unparse(v.body)), norm(ast.unparse(v.orelse)))
@@ -438,7 +588,7 @@ def r4_channel_pairs(repo=None):
             cn = pyfront.call_name(n) or ""
             if cn in ("set", "frozenset", "dict.fromkeys", "filter", "os.path.commonprefix", "collections.OrderedDict.fromkeys"):
                 susp.append(n)
-            if isinstance(n.func, ast.Attribute) and n.func.attr in ("remove", "pop", "discard", "clear", "startswith") and not cn.startswith("os."):
+            if isinstance(n.func, ast.Attribute) and n.func.attr in ("remove", "pop", "discard", "clear") and not cn.startswith("os."):
                 susp.append(n)
     # conditional skips in loops that build the pair list
     for lp in [x for x in ast.walk(f) if isinstance(x, (ast.For, ast.While))]:
@@ -453,25 +603,41 @@ def r4_channel_pairs(repo=None):
             if cond_append and not skips:
                 susp.append(x)
                 continue
-            # `if <cond>: continue` -- the pair is dropped when cond holds
-            t = x.test
+            # `if <cond>: continue` -- the pair is dropped when cond holds; cond is a disjunction of allowed reasons
             if not isinstance(lp, ast.For):
                 susp.append(x)
                 continue
             tgt = norm(ast.unparse(lp.target))
-            # (a) membership of the pair in the kept list
-            if isinstance(t, ast.Compare) and len(t.ops) == 1 and isinstance(t.ops[0], ast.In) and norm(ast.unparse(t.left)) in (tgt, "(%s)" % tgt):
-                kept = norm(ast.unparse(t.comparators[0]))
-                appends = [y for y in ast.walk(lp) if isinstance(y, ast.Call) and isinstance(y.func, ast.Attribute) and y.func.attr == "append"
-                           and norm(ast.unparse(y.func.value)) == kept]
-                if appends:
-                    allowed.append((x, "a pair equal to one already kept is skipped"))
-                    continue
-            # (b) recursion on and source below another requested source
-            conj = t.values if isinstance(t, ast.BoolOp) and isinstance(t.op, ast.And) else [t]
-            has_rec = any(norm(ast.unparse(c)) == "args.recursive" for c in conj)
-            below = None
-            for c in conj:
+            src_name = norm(ast.unparse(lp.target.elts[0])) if isinstance(lp.target, ast.Tuple) else None
+            # locals assigned exactly once (any expression) are looked through: `is_repeat = (src, dest) in kept`
+            env = {}
+            cnt = {}
+            for a_ in pyfront.walk_no_nested(f):
+                if isinstance(a_, ast.Assign) and len(a_.targets) == 1 and isinstance(a_.targets[0], ast.Name):
+                    cnt[a_.targets[0].id] = cnt.get(a_.targets[0].id, 0) + 1
+                    env[a_.targets[0].id] = a_.value
+                elif isinstance(a_, (ast.AugAssign,)) and isinstance(a_.target, ast.Name):
+                    cnt[a_.target.id] = cnt.get(a_.target.id, 0) + 2
+            env = {k: v for k, v in env.items() if cnt.get(k) == 1 and k not in {a2.arg for a2 in f.args.args}}
+
+            def look(e, depth=0):
+                """a bare local name that is assigned exactly once stands for its value"""
+                while isinstance(e, ast.Name) and e.id in env and depth < 4:
+                    e = env[e.id]
+                    depth += 1
+                return e
+
+            def is_membership(t):
+                t = look(t)
+                if isinstance(t, ast.Compare) and len(t.ops) == 1 and isinstance(t.ops[0], ast.In) and norm(ast.unparse(t.left)) in (tgt, "(%s)" % tgt):
+                    kept = norm(ast.unparse(t.comparators[0]))
+                    return any(isinstance(y, ast.Call) and isinstance(y.func, ast.Attribute) and y.func.attr == "append"
+                               and norm(ast.unparse(y.func.value)) == kept for y in ast.walk(lp))
+                return False
+
+            def is_below_test(c):
+                """None, or the description of a component-wise 'source lies below another requested source' test"""
+                c = look(c)
                 if isinstance(c, ast.Call) and pyfront.call_name(c) == "any" and c.args and isinstance(c.args[0], ast.GeneratorExp):
                     g = c.args[0]
                     if isinstance(g.elt, ast.Call) and isinstance(g.elt.func, ast.Name) and len(g.elt.args) == 2 and not g.generators[0].ifs:
@@ -479,15 +645,46 @@ def r4_channel_pairs(repo=None):
                         if roles:
                             params = [a_.arg for a_ in m.functions[g.elt.func.id].args.args]
                             bind = dict(zip(params, [norm(ast.unparse(a_)) for a_ in g.elt.args]))
-                            src_name = norm(ast.unparse(lp.target.elts[0])) if isinstance(lp.target, ast.Tuple) else None
                             gt = g.generators[0].target
                             other = norm(ast.unparse(gt.elts[0])) if isinstance(gt, ast.Tuple) else norm(ast.unparse(gt))
                             same_list = norm(ast.unparse(g.generators[0].iter)) == norm(ast.unparse(lp.iter))
                             if bind.get(roles[0]) == src_name and bind.get(roles[1]) == other and same_list:
-                                below = g.elt.func.id
-            if has_rec and below and len(conj) == 2:
-                allowed.append((x, "with recursion on, a channel below another requested channel (component-wise test %s) is "
-                                   "transferred along with that one" % below))
+                                return g.elt.func.id
+                # <src>.startswith(<tuple of os.path.join(s, "") for the sources of the same list>): str.startswith with a tuple is
+                # "starts with any of", and join(s, "") ends with a separator - component-wise, and never true for s itself
+                if isinstance(c, ast.Call) and isinstance(c.func, ast.Attribute) and c.func.attr == "startswith" and len(c.args) == 1 \
+                        and norm(ast.unparse(c.func.value)) == src_name:
+                    pre = look(c.args[0])
+                    if isinstance(pre, ast.Call) and pyfront.call_name(pre) == "tuple" and pre.args:
+                        pre = pre.args[0]
+                    if isinstance(pre, (ast.GeneratorExp, ast.ListComp)) and len(pre.generators) == 1 and not pre.generators[0].ifs:
+                        gt = pre.generators[0].target
+                        other = norm(ast.unparse(gt.elts[0])) if isinstance(gt, ast.Tuple) else norm(ast.unparse(gt))
+                        same_list = norm(ast.unparse(pre.generators[0].iter)) == norm(ast.unparse(lp.iter))
+                        if norm(ast.unparse(pre.elt)) in ("os.path.join(%s, '')" % other, "%s + os.sep" % other) and same_list:
+                            return "startswith(<source> + separator ...)"
+                return None
+            t = look(x.test)
+            terms = t.values if isinstance(t, ast.BoolOp) and isinstance(t.op, ast.Or) else [t]
+            ok_terms = []
+            bad_term = None
+            for term in terms:
+                if is_membership(term):
+                    ok_terms.append("a pair equal to one already kept is skipped")
+                    continue
+                term_d = look(term)
+                conj = term_d.values if isinstance(term_d, ast.BoolOp) and isinstance(term_d.op, ast.And) else [term_d]
+                has_rec = any(norm(ast.unparse(c)) == "args.recursive" for c in conj)
+                rest = [c for c in conj if norm(ast.unparse(c)) != "args.recursive"]
+                below = is_below_test(rest[0]) if len(rest) == 1 else None
+                if has_rec and below:
+                    ok_terms.append("with recursion on, a channel below another requested channel (component-wise test %s) is "
+                                    "transferred along with that one" % below)
+                else:
+                    bad_term = term
+            if bad_term is None:
+                for why in ok_terms:
+                    allowed.append((x, why))
                 continue
             susp.append(x)
     # helpers that look like prefix tests but are not component-wise are suspicious where they are used
